@@ -116,6 +116,9 @@ def _parse_payload(
             raise ConversionError(
                 "Could not convert value to a raw payload", value=value
             ) from err
+    if isinstance(payload, DPTArray) and not payload.value:
+        # would be read as a 6 bit value of 0 - GroupValueWrite.to_knx() refuses it
+        raise ConversionError("Payload must not be empty", value=value)
     if isinstance(payload, DPTArray) and not all(
         isinstance(item, int) and 0 <= item <= 255 for item in payload.value
     ):
